@@ -133,6 +133,59 @@ def _apply_index(df, style, sort_col, id_col=None):
     return df
 
 
+def _mev_and_nests(rr, model, full, ids, n_alt, force_mev=False):
+    """second partition + nests for a model on the alternatives `ids` -> (mev, nests)"""
+    mev = None
+    nests = None
+    if model in ('nested', 'cnl') or force_mev or rr.random() < 0.25:
+        if rr.random() < 0.5 or n_alt < 4:
+            mev_ids = list(ids)
+        else:
+            mev_ids = rr.sample(ids, rr.randint(max(2, n_alt // 2), n_alt))
+        m_str = min(rr.choice([1, 1, 2, 3]), len(mev_ids))
+        mstrata = [sorted(p) for p in _split(rr, mev_ids, m_str)]
+        msizes = []
+        for st in mstrata:
+            if full:
+                msizes.append(len(st))
+            else:
+                u = rr.random()
+                msizes.append(len(st) if u < 0.3 else rr.randint(1, min(len(st), 10)))
+        mev = {'strata': mstrata, 'sizes': msizes}
+        if model == 'nested':
+            # nests are disjoint subsets of the MEV alternatives; some MEV alternatives may stay alone
+            pool = list(mev_ids)
+            rr.shuffle(pool)
+            if rr.random() < 0.4 and len(pool) > 2:
+                pool = pool[: rr.randint(2, len(pool))]
+            n_nests = min(rr.choice([1, 2, 2, 3]), max(1, len(pool) // 1))
+            n_nests = max(1, min(n_nests, len(pool)))
+            parts = _split(rr, pool, n_nests)
+            nests = []
+            for k, p in enumerate(parts):
+                nests.append({'name': f'nest{k}', 'mu': round(rr.uniform(1.0, 2.5), 2), 'mu_kind': rr.choice(['free', 'fixed', 'float']),
+                              'alpha': {str(a): 1.0 for a in sorted(p)}})
+        elif model == 'cnl':
+            n_nests = rr.choice([1, 2, 2, 3])
+            nests = [{'name': f'nest{k}', 'mu': round(rr.uniform(1.0, 2.5), 2), 'mu_kind': rr.choice(['free', 'fixed', 'float']), 'alpha': {}}
+                     for k in range(n_nests)]
+            for a in mev_ids:
+                members = rr.sample(range(n_nests), rr.randint(1, n_nests))
+                if len(members) == 1:
+                    nests[members[0]]['alpha'][str(a)] = 1.0
+                else:
+                    w = [rr.randint(1, 9) for _ in members]
+                    tot = sum(w)
+                    for m, ww in zip(members, w):
+                        nests[m]['alpha'][str(a)] = round(ww / tot, 2)
+            nests = [n for n in nests if n['alpha']]
+            covered = set()
+            for n in nests:
+                covered |= set(n['alpha'])
+            # the MEV partition covers exactly the nested alternatives (as the context demands for CNL)
+    return mev, nests
+
+
 def make_spec(seed, i, tier='quick', model=None, full=None, **force):
     rr = random.Random(f'c19/{seed}/{i}')
     big = tier == 'thorough'
@@ -232,54 +285,7 @@ def make_spec(seed, i, tier='quick', model=None, full=None, **force):
         util.append({'beta': f'b{k}', 'value': _r3(rr, -scale, scale), 'status': 1 if rr.random() < 0.15 else 0, 'term': term})
     # every combined variable is used at least once in the data (it is always defined), not necessarily in V
     # ---- second (MEV) sample, nests ----
-    mev = None
-    nests = None
-    if model in ('nested', 'cnl') or rr.random() < 0.25:
-        if rr.random() < 0.5 or n_alt < 4:
-            mev_ids = list(ids)
-        else:
-            mev_ids = rr.sample(ids, rr.randint(max(2, n_alt // 2), n_alt))
-        m_str = min(rr.choice([1, 1, 2, 3]), len(mev_ids))
-        mstrata = [sorted(p) for p in _split(rr, mev_ids, m_str)]
-        msizes = []
-        for st in mstrata:
-            if full:
-                msizes.append(len(st))
-            else:
-                u = rr.random()
-                msizes.append(len(st) if u < 0.3 else rr.randint(1, min(len(st), 10)))
-        mev = {'strata': mstrata, 'sizes': msizes}
-        if model == 'nested':
-            # nests are disjoint subsets of the MEV alternatives; some MEV alternatives may stay alone
-            pool = list(mev_ids)
-            rr.shuffle(pool)
-            if rr.random() < 0.4 and len(pool) > 2:
-                pool = pool[: rr.randint(2, len(pool))]
-            n_nests = min(rr.choice([1, 2, 2, 3]), max(1, len(pool) // 1))
-            n_nests = max(1, min(n_nests, len(pool)))
-            parts = _split(rr, pool, n_nests)
-            nests = []
-            for k, p in enumerate(parts):
-                nests.append({'name': f'nest{k}', 'mu': round(rr.uniform(1.0, 2.5), 2), 'mu_kind': rr.choice(['free', 'fixed', 'float']),
-                              'alpha': {str(a): 1.0 for a in sorted(p)}})
-        elif model == 'cnl':
-            n_nests = rr.choice([1, 2, 2, 3])
-            nests = [{'name': f'nest{k}', 'mu': round(rr.uniform(1.0, 2.5), 2), 'mu_kind': rr.choice(['free', 'fixed', 'float']), 'alpha': {}}
-                     for k in range(n_nests)]
-            for a in mev_ids:
-                members = rr.sample(range(n_nests), rr.randint(1, n_nests))
-                if len(members) == 1:
-                    nests[members[0]]['alpha'][str(a)] = 1.0
-                else:
-                    w = [rr.randint(1, 9) for _ in members]
-                    tot = sum(w)
-                    for m, ww in zip(members, w):
-                        nests[m]['alpha'][str(a)] = round(ww / tot, 2)
-            nests = [n for n in nests if n['alpha']]
-            covered = set()
-            for n in nests:
-                covered |= set(n['alpha'])
-            # the MEV partition covers exactly the nested alternatives (as the context demands for CNL)
+    mev, nests = _mev_and_nests(rr, model, full, ids, n_alt)
     spec = {
         'model': model, 'full': bool(full), 'id_kind': id_kind, 'id_float': id_float,
         'ids': ids, 'alt_cols': alt_cols, 'alt_int_cols': int_cols,
@@ -289,6 +295,42 @@ def make_spec(seed, i, tier='quick', model=None, full=None, **force):
         'combined': comb, 'utility': util, 'mev': mev, 'nests': nests,
     }
     return spec
+
+
+def make_history(seed, i, tier='quick'):
+    """2-4 specifications that share ONE table of alternatives (same ids, columns, row labels: the caller builds the
+    data frame once and hands the same object to every context): a cross-nested context first, then cross-nested with
+    the same nest names and other alphas / members, a logit or nested context in between, the same specification again,
+    or other nest names. Everything else (partition sizes, second partition) is re-drawn per step."""
+    import copy
+
+    rr = random.Random(f'c19-history/{seed}/{i}')
+    base = make_spec(seed + 7777, i, tier, model='cnl', n_ind=rr.choice([2, 4, 6, 10]), n_alt=rr.randint(4, 12))
+    steps = [base]
+    n_steps = rr.choice([2, 2, 3, 3, 4])
+    kinds = []
+    for k in range(1, n_steps):
+        kind = rr.choice(['cnl_same_names', 'cnl_same_names', 'cnl_same_names', 'logit', 'nested', 'same', 'cnl_other_names'])
+        if k == n_steps - 1 and not any(x.startswith('cnl') or x == 'same' for x in kinds):
+            kind = 'cnl_same_names'  # a history always comes back to a cross-nested context
+        kinds.append(kind)
+        prev_cnl = [sp for sp in steps if sp['model'] == 'cnl'][-1]
+        if kind == 'same':
+            sp = copy.deepcopy(prev_cnl)
+        else:
+            sp = copy.deepcopy(base)
+            model = 'cnl' if kind.startswith('cnl') else kind
+            full = rr.random() < 0.5
+            sp['model'], sp['full'] = model, full
+            sp['sizes'] = [len(st) if full else rr.randint(1, len(st)) for st in sp['strata']]
+            sp['mev'], sp['nests'] = _mev_and_nests(rr, model, full, sp['ids'], len(sp['ids']))
+            if kind == 'cnl_other_names':
+                for n in sp['nests']:
+                    n['name'] = 'other_' + n['name']
+        sp['history_step'] = kind
+        steps.append(sp)
+    base['history_step'] = 'first_cnl'
+    return steps
 
 
 def directed():
@@ -397,7 +439,7 @@ def frames(spec):
     return individuals, alternatives
 
 
-def build(spec, file_name):
+def build(spec, file_name, alternatives=None):
     """-> dict(context=SamplingContext, nests=NestsForNestedLogit|None, individuals=..., alternatives=...)"""
     from biogeme.expressions import Beta
     from biogeme.partition import Partition
@@ -405,7 +447,9 @@ def build(spec, file_name):
     from biogeme.nests import (OneNestForNestedLogit, NestsForNestedLogit, OneNestForCrossNestedLogit,
                                NestsForCrossNestedLogit)
 
-    individuals, alternatives = frames(spec)
+    individuals, own = frames(spec)
+    if alternatives is None:
+        alternatives = own  # else: the caller's data frame object, shared with earlier contexts (never copied here)
     part = Partition([set(s) for s in spec['strata']], full_set=set(spec['ids']))
     V = None
     for t in spec['utility']:
